@@ -197,6 +197,33 @@ func VHCoal() {
 		func() { c20Coal(vUint64) }, func() { c20Coal(vUint) }, func() { c20Coal(vUintptr) }, nil, nil)
 }
 
+// VHCoalTypes: Coal compares with the zero value (==), whatever the type says about itself: a
+// value whose IsZero method reports true but which is not the zero value is a non-zero argument;
+// strings, pointers, structs and interface values as well.
+func VHCoalTypes() {
+	a, b := vInt("a"), vInt("b")
+	z7, zb := c20Zeroer{7}, c20Zeroer{b}
+	want := z7 // IsZero() is true for it, but it is not the zero value
+	vAssert(Coal(c20Zeroer{}, z7, zb) == want, "Coal returns the first argument that differs from the zero value (IsZero methods are not consulted)")
+	vAssert(Coal(c20Zeroer{}, c20Zeroer{a}) == c20Zeroer{a}, "Coal on a struct type: the first non-zero argument, or zero")
+	vAssert(Coal[c20Zeroer]() == c20Zeroer{}, "Coal without arguments is zero")
+	s1, s2 := "", "x"
+	vAssert(Coal(s1, s2, "y") == "x" && Coal(s1, s1) == "", "Coal on strings")
+	p := &a
+	var np *int
+	vAssert(Coal(np, p) == p && Coal(np, np) == nil, "Coal on pointers")
+	vAssert(Coal(c20Plain{}, c20Plain{a, false}, c20Plain{1, true}) == vIteP(a != 0, c20Plain{a, false}, c20Plain{1, true}), "Coal on a plain struct")
+	vCover("coal types done")
+}
+
+// vIteP: if-then-else on plain structs (forks)
+func vIteP(c bool, x, y c20Plain) c20Plain {
+	if c {
+		return x
+	}
+	return y
+}
+
 // ---- utilities ----
 
 type c20Zeroer struct{ a int }
